@@ -1,5 +1,7 @@
 import Vuego.Driver.J
 import Vuego.Model.Fmt
+import Vuego.Model.FmtTree
+import Vuego.Driver.DomJson
 namespace Vuego.Driver
 open Lean Go Vuego.Fmt
 
@@ -22,6 +24,12 @@ def fmtOp (j : Json) : Json :=
     let (fm, body) := splitFM (splitChar '\n' content)
     if fm == [] then O [("fm", S []), ("body", S content)]
     else O [("fm", S (joinWith ['\n'] fm ++ ['\n'])), ("body", S (joinWith ['\n'] body))]
+  | "tree" =>
+    -- formatNode over each parsed node at the given depth (default indent width 2)
+    let nodes := (jarrK j "nodes").map nodeOfJson
+    let d := match jget j "depth" with | .num n => n.mantissa.toNat | _ => 0
+    O [("out", S (Vuego.FmtTree.formatKids 2 d nodes))]
+  | "normtext" => O [("out", S (Vuego.FmtTree.normalizeInlineText (jstrK j "s")))]
   | _ => O [("error", Json.str "bad-kind")]
 
 end Vuego.Driver
